@@ -229,6 +229,7 @@ class SymEval:
         self.env = dict(env or {})
         self.inline = inline          # callback(call_node, evaluator) -> Term | None
         self.attr_as_symbol = attr_as_symbol
+        self.escaped = set()          # local containers handed to an uninterpreted call
 
     def ev(self, n):
         if isinstance(n, ast.Constant):
@@ -286,6 +287,8 @@ class SymEval:
             base = dotted_name(n.value)
             if base is not None and isinstance(n.slice, ast.Constant):
                 k = f"{base}[{n.slice.value!r}]"
+                if k not in self.env and base in self.escaped:
+                    return Term.sym(f"<{base}[{n.slice.value!r}] after a call that received {base}>")
                 if k not in self.env and base in self.env and hasattr(self.env[base], "key") and "(" in self.env[base].key():
                     # an entry of a container that came out of a call the abstraction has no meaning for: not interpreted
                     return Term.sym(f"<{self.env[base].key()}[{n.slice.value!r}]>")
